@@ -26,6 +26,13 @@ def facts(res, harness):
 def gen(tier, rng, harness=None, driver=None):
     n = 120 if tier == "quick" else 5000
     lines = []
+    # blockaddress targets that do not exist: a block of a function that is only DECLARED, a missing block of a defined function (named / numbered), an undefined
+    # function — in a global initializer, in an instruction, in a metadata operand; and a use-list order of such a block
+    for site in ('@a = global i8* blockaddress(%s)\n', 'define i8* @u() {\n\tret i8* blockaddress(%s)\n}\n', '!0 = !{i8* blockaddress(%s)}\n'):
+        for tgt, prelude in (("@ext, %bb", "declare void @ext()\n"), ("@ext, %0", "declare void @ext()\n"), ("@d, %nosuch", "define void @d() {\nentry:\n\tret void\n}\n"),
+                             ("@d, %7", "define void @d() {\nentry:\n\tret void\n}\n"), ("@nosuch, %entry", "define void @d() {\nentry:\n\tret void\n}\n")):
+            lines.append("!mod.mustfail - %s" % hx(prelude + "\n" + site % tgt))
+    lines.append("!mod.mustfail - %s" % hx("declare void @ext()\n\nuselistorder_bb @ext, %bb, { 1, 0 }\n"))
     # M-Core-3: the proved translation of real function bodies against the real parser on printed functions and their single-point mutants
     from . import pC01
     lines += pC01.core3_parse_stream(rng, driver, n)
